@@ -124,12 +124,18 @@ func GenDec(r *plan.Rng, wide bool) plan.Dec {
 		if r.Bool() {
 			d.Coeff = randDigits(r, 1+r.Intn(5))
 		}
+		if r.Chance(1, 4) {
+			d.Coeff = GenCoeff(r) // payloads may be long (heap-backed)
+		}
 		return d
 	case 1:
 		d.Form = 2 // sNaN
 		d.Neg = r.Chance(1, 3)
 		if r.Bool() {
 			d.Coeff = randDigits(r, 1+r.Intn(5))
+		}
+		if r.Chance(1, 4) {
+			d.Coeff = GenCoeff(r)
 		}
 		return d
 	case 2:
@@ -210,7 +216,12 @@ func GenCtx(r *plan.Rng, traps uint32, maxPrec uint32) plan.Ctx {
 			er = erange{100000, -100000}
 		}
 	}
-	return plan.Ctx{P: p, Emax: er.max, Emin: er.min, Traps: traps, Round: RounderNames[r.Intn(len(RounderNames))]}
+	c := plan.Ctx{P: p, Emax: er.max, Emin: er.min, Traps: traps, Round: RounderNames[r.Intn(len(RounderNames))]}
+	if r.Chance(1, 25) {
+		// exponent limits beyond the package's own (as the GDA test files use)
+		c.Emax, c.Emin = 999999999, -999999999
+	}
+	return c
 }
 
 var parseStrings = []string{"0", "-0", "1", "-1.5", "12.345", "1e5", "-1E-5", "1.23456789012345678901234567890e10", "Inf", "-Infinity", "NaN", "sNaN", "nan123", "snan7",
@@ -263,6 +274,16 @@ func Sibling(r *plan.Rng, d plan.Dec) plan.Dec {
 	default:
 		s.Coeff = randDigits(r, n)
 		s.Exp = d.Exp + int32(r.Range(-2, 2))
+	}
+	if r.Chance(1, 10) {
+		// a partner at the other end of the exponent range: the exponent gap
+		// exceeds the package limit (system-limit error paths)
+		s.Coeff = randDigits(r, 1+r.Intn(3))
+		if d.Exp >= 0 {
+			s.Exp = int32(-r.Range(99990, 100000))
+		} else {
+			s.Exp = int32(r.Range(99990, 100000))
+		}
 	}
 	if r.Chance(1, 4) {
 		s.Neg = !d.Neg
